@@ -85,8 +85,8 @@ def helper_for_field(ctx: Ctx, rep: Report, field: str) -> Optional[Func]:
 
 
 # ------------------------------------------------------------------ R03.1
-def r03_1(ctx: Ctx, rep: Report) -> List[str]:
-    rep.rule("R03.1")
+def r03_1(ctx: Ctx, rep: Report, rid: str = "R03.1") -> List[str]:
+    rep.rule(rid)
     so = ctx.func("Ace.shadow_of")
     rep.require(len(so.params) >= 2, "Ace.shadow_of lost its `other` parameter")
     other = so.params[1]
@@ -215,8 +215,8 @@ def skip_structure(ctx: Ctx, f: Func, rep: Report, qual: str) -> None:
                 rep.ok(f"{qual}: skip {t2!r} independent of {t1!r}", "tested on both branches", where=where(f, c2.ast))
 
 
-def r03_2(ctx: Ctx, rep: Report, helpers: Dict[str, Optional[Func]]) -> None:
-    rep.rule("R03.2")
+def r03_2(ctx: Ctx, rep: Report, helpers: Dict[str, Optional[Func]], rid: str = "R03.2") -> None:
+    rep.rule(rid)
     so = ctx.func("Ace.shadow_of")
     for fld in ("_srcaddr", "_dstaddr"):
         h = helpers.get(fld)
@@ -254,8 +254,8 @@ SIBLINGS = [
 ]
 
 
-def r03_3(ctx: Ctx, rep: Report, pairs=SIBLINGS[:2]) -> None:
-    rep.rule("R03.3")
+def r03_3(ctx: Ctx, rep: Report, pairs=SIBLINGS[:2], rid: str = "R03.3") -> None:
+    rep.rule(rid)
     for a, b in pairs:
         fa, fb = ctx.prog.find_func(a), ctx.prog.find_func(b)
         if fa is None or fb is None:
@@ -273,12 +273,12 @@ def r03_3(ctx: Ctx, rep: Report, pairs=SIBLINGS[:2]) -> None:
 
 
 # ------------------------------------------------------------------ R03.4 / R03.7
-def port_cover_rules(ctx: Ctx, rep: Report, h: Func, field: str) -> None:
+def port_cover_rules(ctx: Ctx, rep: Report, h: Func, field: str, rid4: str = "R03.4", rid7: str = "R03.7", do7: bool = True) -> None:
     cfg = ctx.cfg(h)
     other = h.params[1] if len(h.params) > 1 else "other"
     paths = [p for p in function_paths(cfg) if not p.raises]
     # R03.4
-    rep.rule("R03.4")
+    rep.rule(rid4)
     rep.instance()
     n_true = 0
     for p in paths:
@@ -308,7 +308,9 @@ def port_cover_rules(ctx: Ctx, rep: Report, h: Func, field: str) -> None:
                 inp="top 'permit tcp any lt 1 any', bottom 'permit tcp any eq 80 any'",
             )
     # R03.7
-    rep.rule("R03.7")
+    if not do7:
+        return
+    rep.rule(rid7)
     rep.instance()
     found = False
     for p in paths:
